@@ -68,7 +68,9 @@ EvProbe ==
 
 EvLaw ==
   /\ Trace[l].ev = "law"
-  /\ verdicts' = verdicts \cup Tag(Trace[l], StepLaw(ws, Trace[l]), "-")
+  /\ verdicts' = verdicts \cup UNION {Tag(Trace[l], {v}, LET ds == ExplainsLaw(ws, Trace[l], v) IN
+                                         IF ds = {} THEN "-" ELSE "dev:" \o (CHOOSE d \in ds : TRUE))
+                                      : v \in StepLaw(ws, Trace[l])}
   /\ UNCHANGED <<ws, nops>>
 
 \* GenBank write-read-write of a workspace record (C01 reachability)
